@@ -106,7 +106,7 @@ def run_shard(ctx):
     mon_dsep.install()
     rng = ctx.rng
     pool: list = []
-    for i in range(ctx.share({"quick": 1400, "thorough": 40000}[ctx.tier])):
+    for i in range(ctx.share({"quick": 2500, "thorough": 40000}[ctx.tier])):
         biased = i % 3 != 0
         if biased:
             bc = biased_case(rng)
@@ -124,7 +124,7 @@ def run_shard(ctx):
             pool.append((gd, q, doms))
     # feedback: line 10 (ID's line 7) is reached by ~4 % of random cases; cases that reached it are kept and mutated
     fb = {"line10_cases": 0}
-    for i in range(ctx.share({"quick": 1200, "thorough": 40000}[ctx.tier])):
+    for i in range(ctx.share({"quick": 2500, "thorough": 40000}[ctx.tier])):
         if pool and rng.random() < 0.9:
             gd, q, doms = rng.choice(pool)
             gd = gg.mutate(gd, rng)
